@@ -497,6 +497,12 @@ class SmallSet {
       _set.merge(o._set);
       return;
     }
+    if (!std::is_same<Compare, C2>::value || !std::is_empty<Compare>::value) {
+      // The compare objects may differ: several elements of 'o' may be equivalent for 'this'.
+      // Visit them in the order of 'o', as a merge from an ordered set would do (the small container is not ordered).
+      C2 oComp = o.key_comp();
+      std::sort(o._vec.begin(), o._vec.end(), oComp);
+    }
     bool small = isSmall();
     for (auto oit = o._vec.begin(); oit != o._vec.end();) {
       FindFunctor<T> fFunc(key_comp(), *oit);
